@@ -301,15 +301,10 @@ def fpToSBV(rm, fp, size):
 
 
 def fpToUBV(rm, fp, size):
-    # todo: actually make unsigned
     try:
         rounding_mode = rm.pydecimal_equivalent_rounding_mode()
         val = int(Decimal(fp.value).to_integral_value(rounding_mode))
-        assert val & ((1 << size) - 1) == val, (
-            f"Rounding produced values outside the BV range! rounding {fp.value} with rounding mode {rm} produced {val}"
-        )
-        if val < 0:
-            val = (1 << size) + val
+        # SMT-LIB leaves fp.to_ubv unspecified when the rounded value is outside [0, 2**size - 1]; wrap it like fpToSBV
         return BVV(val, size)
 
     except (ValueError, OverflowError):
